@@ -21,9 +21,26 @@ import (
 // The write operations of the forced-schedule table. Each runs through the executor, so
 // the reference model records the acknowledged effect.
 type c14Write struct {
-	name  string // hook prefix op.<name>
+	name  string // hook prefix op.<name> (unless hook is set)
 	setup func(x *vexec.Exec)
 	do    func(x *vexec.Exec) error
+}
+
+// hookOp: the operation whose journaled point parks the writer (the first one of a compound write)
+func (w c14Write) hookOp() string {
+	if i := strings.IndexAny(w.name, "(+"); i > 0 {
+		return w.name[:i]
+	}
+	return w.name
+}
+
+func c14Seq(steps ...func() error) error {
+	for _, st := range steps {
+		if err := st(); err != nil {
+			return err
+		}
+	}
+	return nil
 }
 
 var c14Writes = []c14Write{
@@ -45,6 +62,35 @@ var c14Writes = []c14Write{
 	}},
 	{"VCreate", nil, func(x *vexec.Exec) error {
 		return x.VCreate(vexec.IndexCfg{Name: "wix", Metric: distance.Cosine, Prec: distance.Float32, M: 4, EfC: 8})
+	}},
+	// compound writes on one item: when the admin operation captures its state between or
+	// after them, records of the sequence are both in the captured state and among the
+	// writes journaled again afterwards; replaying them must be neutral
+	{"VLink(same)+VUnlink", nil, func(x *vexec.Exec) error {
+		return c14Seq(func() error { return x.VLink("ix", "p2", "p0", "r", "", 1, nil) },
+			func() error { return x.VUnlink("ix", "p2", "p0", "r", "", false) })
+	}},
+	{"VUnlink+VLink+VUnlink", nil, func(x *vexec.Exec) error {
+		return c14Seq(func() error { return x.VUnlink("ix", "p2", "p0", "r", "", false) },
+			func() error { return x.VLink("ix", "p2", "p0", "r", "", 1, nil) },
+			func() error { return x.VUnlink("ix", "p2", "p0", "r", "", false) })
+	}},
+	{"VLink(evolve)+VUnlink+VLink", nil, func(x *vexec.Exec) error {
+		return c14Seq(func() error { return x.VLink("ix", "p2", "p0", "r", "ri", 3, nil) },
+			func() error { return x.VUnlink("ix", "p2", "p0", "r", "ri", false) },
+			func() error { return x.VLink("ix", "p2", "p0", "r", "ri", 3, nil) })
+	}},
+	{"VUnlink(hard)+VLink", nil, func(x *vexec.Exec) error {
+		return c14Seq(func() error { return x.VUnlink("ix", "p2", "p0", "r", "", true) },
+			func() error { return x.VLink("ix", "p2", "p0", "r", "", 1, nil) })
+	}},
+	{"VDelete+VAdd", nil, func(x *vexec.Exec) error {
+		return c14Seq(func() error { return x.VDelete("ix", "p1") },
+			func() error { return x.VAdd("ix", "p1", []float32{9, 9}, map[string]any{"seq": 5.0}) })
+	}},
+	{"VSetMetadata+VSetMetadata", nil, func(x *vexec.Exec) error {
+		return c14Seq(func() error { return x.VSetMetadata("ix", "p0", map[string]any{"seq": 9.0, "a": "x"}) },
+			func() error { return x.VSetMetadata("ix", "p0", map[string]any{"seq": 10.0}) })
 	}},
 }
 
@@ -320,7 +366,7 @@ func c14RunSchedule(cs *vkit.Case, x *vexec.Exec, wr c14Write, admin, phase, ord
 	switch order {
 	case "journaled_before":
 		wgate := newGate()
-		verifhook.Set("op."+wr.name+".journaled", wgate.handler)
+		verifhook.Set("op."+wr.hookOp()+".journaled", wgate.handler)
 		go func() { writeDone <- wr.do(x) }()
 		if !waitOr(cs, wgate.reached, "writer at journaled") {
 			// the write finished without passing its journaled point (e.g. rejected)
@@ -339,10 +385,20 @@ func c14RunSchedule(cs *vkit.Case, x *vexec.Exec, wr c14Write, admin, phase, ord
 			outcome = append(outcome, "admin_waits_for_writer")
 		}
 		wgate.open()
-		if err := <-writeDone; err != nil {
-			cs.Fail("write %s failed: %v", wr.name, err)
+		select {
+		case err := <-writeDone:
+			if err != nil {
+				cs.Fail("write %s failed: %v", wr.name, err)
+			}
+			adminGate.open()
+		case <-time.After(3 * time.Second):
+			// a later step of a compound write needs something the admin op holds at its phase
+			outcome = append(outcome, "write_waits_for_admin")
+			adminGate.open()
+			if err := <-writeDone; err != nil {
+				cs.Fail("write %s failed: %v", wr.name, err)
+			}
 		}
-		adminGate.open()
 		if err := <-adminDone; err != nil {
 			cs.Fail("%s failed: %v", admin, err)
 		}
